@@ -25,6 +25,8 @@ CLAIMS = {
  "C12": ("same filter-and-repack theorem with the completeness mask; how=any/all/thresh decision lemmas; target resolution decision table (mixed/conflicting refused, on_nested/subset aims); correspondence: how x thresh x subset x on_nested x inplace vs model and per-row spec, base-layer dropna vs oracle, refusals", "§7 C12"),
  "C13": ("eval is elementwise on the flat view by construction of the model (eval_is_elementwise, validated per expression), assignment to a field of an existing nest satisfies the frame condition (eval_assign_frame_condition + replaced_column_frame_condition); correspondence: arithmetic/conditions vs model and spec, assignments to existing/new field/new nest, inplace or not, multi-line programs", "§7 C13"),
  "C14": ("plain and quoted spellings parse to the same components (parse_plain, parse_quoted for arbitrary names incl. spaces/punctuation/dots/keywords, spellings_agree), precedence of a literal base column, known field resolution identical for item access and assignment, unknown path is an error, listing consistent — one parser function in the model for all seven operations; correspondence: marker frames with identifier/space/punctuation/keyword/digit-first/colliding names, each path spelled plain/quoted/half-quoted in getitem, setitem, query, eval, eval-assignment, reduce, sort_values, dropna; real _parse_hierarchical_components vs the Lean parser; unknown paths", "§7 C14"),
+ "C15": ("sharing model (array objects = heap cells; results/deep copies/in-place frame operations only allocate, in-place array operations write one cell): an in-place write is visible only through objects referring to that cell, allocation leaves every other object unchanged, a deep copy shares no cell, noninterference over histories of any length by induction with the allocator invariant; correspondence: families {original, deep copy, row slice, column selection, extracted series, argument table and series, results} under random interleavings of 16 pure, 3 in-place-array, 6 in-place-frame operations and in-place edits of the argument table, full snapshots of every live object after every step, the set of objects that may change predicted from object identity (`is`)", "§7 C15"),
+ "C16": ("state-machine model of the only hidden state (the _aliases attribute and the eval/query protocol around it, as after the fix): invariant 'attribute clear after every call, successful or raising' by induction over histories, a raising call and a non-inplace call leave the frame exactly as it was, history_independence for prefixes of any length; correspondence: 31 failing/read-only operations, all single prefixes + sampled pairs (all pairs and triples in thorough) followed by a battery of 18 probes on the same object and on a copy, each compared with the same probe on a freshly built equal frame", "§7 C16"),
  "C17": ("the string name parses back to the same dtype (name_parses_back: any number/order of fields, separator-free distinct names, alias-sound types), names are injective, parametric types are refused never mis-parsed (unknown_type_refused, field_parse_sound), declared dtype after a field edit = type of the stored data; correspondence: every alias pyarrow accepts exhaustively (enumerated at run time), parametric instantiations, random field lists/orders, truncated/permuted/mutated strings vs the Lean parser, identity/hash/pickle/ArrowDtype round trips, declared-vs-stored dtype after edit histories", "§7 C17"),
  "C19": ("same records per row in both orientations proved for validated chunks whose fields are slices of different buffers (rebased_window_same_extents, list_struct_same_records); correspondence: every export/import door and explicit type requests on all layouts", "§7 C19"),
 }
